@@ -117,6 +117,10 @@ func (g *PG) intExpr(d int) string {
 	case k == 10:
 		if t := g.vars("*T"); len(t) > 0 {
 			g.f("method-call")
+			if r.Bool() {
+				g.f("variadic-method-call")
+				return fmt.Sprintf("%s.Vsum(%s)", Pick(r, t), strings.Join([]string{g.intExpr(d - 1), g.intExpr(0), g.intExpr(0)}[:1+r.Intn(3)], ", "))
+			}
 			return fmt.Sprintf("%s.Sum(%s)", Pick(r, t), g.intExpr(d-1))
 		}
 	case k == 11:
@@ -573,7 +577,7 @@ func (g *PG) stmt(depth int) {
 // GenProgram returns a program and the set of features it uses.
 func GenProgram(r *RNG, depth int) (GoProg, map[string]bool) {
 	g := &PG{r: r, budget: 45, feat: map[string]bool{}}
-	g.w("const KA = 7\n\nconst KB = KA*2 + 1\n\nconst (\n\t_ = iota\n\tKC\n\tKD\n)\n\nfunc blanks(n int) int {\n\tconst (\n\t\t_ = iota * 10\n\t\tk1\n\t\t_\n\t\tk3\n\t)\n\tconst _ = 7\n\treturn n*k3 + k1\n}\n\nfunc cok(m map[string]int) int {\n\tv, _ := m[\"a\"]\n\t_, ok := m[\"zz\"]\n\tif ok {\n\t\treturn -1\n\t}\n\treturn v\n}\n\nfunc idx(k int) int {\n\tprintln(\"idx\", k)\n\treturn k %% 3\n}\n\nvar fuel = 80\n\nvar gacc = 0\n\ntype T struct {\n\tA int\n\tB int\n}\n\nfunc (t *T) Sum(k int) int {\n\treturn t.A + t.B*k\n}\n\nfunc (t *T) Inc() {\n\tt.A++\n\tt.B += 2\n}\n\n")
+	g.w("const KA = 7\n\nconst KB = KA*2 + 1\n\nconst (\n\t_ = iota\n\tKC\n\tKD\n)\n\nfunc blanks(n int) int {\n\tconst (\n\t\t_ = iota * 10\n\t\tk1\n\t\t_\n\t\tk3\n\t)\n\tconst _ = 7\n\treturn n*k3 + k1\n}\n\nfunc cok(m map[string]int) int {\n\tv, _ := m[\"a\"]\n\t_, ok := m[\"zz\"]\n\tif ok {\n\t\treturn -1\n\t}\n\treturn v\n}\n\nfunc idx(k int) int {\n\tprintln(\"idx\", k)\n\treturn k %% 3\n}\n\nvar fuel = 80\n\nvar gacc = 0\n\ntype T struct {\n\tA int\n\tB int\n}\n\nfunc (t *T) Sum(k int) int {\n\treturn t.A + t.B*k\n}\n\nfunc (t *T) Inc() {\n\tt.A++\n\tt.B += 2\n}\n\nfunc (t *T) Vsum(k int, xs ...int) int {\n\ts := t.A * k\n\tfor _, x := range xs {\n\t\ts += x\n\t}\n\treturn s + len(xs)\n}\n\n")
 	g.w("func add(a int, b int) int {\n\treturn a + b\n}\n\nfunc isOdd(a int) bool {\n\treturn a%%2 != 0\n}\n\n")
 	g.w("func pair2(a int, b int) (int, int) {\n\treturn b, a + 1\n}\n\nfunc tri(a int) (int, int, int) {\n\treturn a, a + 1, a + 2\n}\n\n")
 	// results of other types than the parameters, returned as untyped constants: they take the result type
